@@ -64,20 +64,39 @@ theorem fold_regMax_at (f : Nat → Nat × Nat) (ks : List Nat) (r0 : Array Nat)
     rw [this]
     omega
 
-theorem supAt_mergeLoop (f : Nat → Nat × Nat) (vals keys : List Nat) (i : Nat) :
-    supAt f (mergeLoop vals keys) i = max (supAt f vals i) (supAt f keys i) := by
-  induction vals, keys using mergeLoop.induct with
-  | case1 keys => simp [mergeLoop, supAt]
-  | case2 vals h => 
+theorem supAt_append (f : Nat → Nat × Nat) (xs ys : List Nat) (i : Nat) :
+    supAt f (xs ++ ys) i = max (supAt f xs i) (supAt f ys i) := by
+  induction xs with
+  | nil => simp [supAt]
+  | cons x xs ih => simp only [List.cons_append, supAt, ih]; omega
+
+theorem supAt_mergeLoopGo (f : Nat → Nat × Nat) (fuel : Nat) (vals keys : List Nat) (i : Nat) :
+    supAt f (mergeLoopGo fuel vals keys) i = max (supAt f vals i) (supAt f keys i) := by
+  induction fuel generalizing vals keys with
+  | zero =>
     cases vals with
-    | nil => simp at h
-    | cons a t => simp [mergeLoop, supAt]
-  | case3 x1 vs ks ih => 
-    rw [mergeLoop]; simp only [↓reduceIte, supAt, ih]; omega
-  | case4 x1 vs x2 ks hne hgt ih =>
-    rw [mergeLoop]; simp only [hne, hgt, ↓reduceIte, supAt, ih]; omega
-  | case5 x1 vs x2 ks hne hgt ih =>
-    rw [mergeLoop]; simp only [hne, hgt, ↓reduceIte, supAt, ih]; omega
+    | nil => simp [mergeLoopGo, supAt]
+    | cons a t =>
+      cases keys with
+      | nil => simp [mergeLoopGo, supAt]
+      | cons b u => simp only [mergeLoopGo, supAt_append]
+  | succ fuel ih =>
+    cases vals with
+    | nil => simp [mergeLoopGo, supAt]
+    | cons x1 vs =>
+      cases keys with
+      | nil => simp [mergeLoopGo, supAt]
+      | cons x2 ks =>
+        simp only [mergeLoopGo]
+        split
+        · next h => subst h; simp only [supAt, ih]; omega
+        · split
+          · simp only [supAt, ih]; omega
+          · simp only [supAt, ih]; omega
+
+theorem supAt_mergeLoop (f : Nat → Nat × Nat) (vals keys : List Nat) (i : Nat) :
+    supAt f (mergeLoop vals keys) i = max (supAt f vals i) (supAt f keys i) :=
+  supAt_mergeLoopGo f _ vals keys i
 
 theorem supAt_nil (f : Nat → Nat × Nat) (i : Nat) : supAt f [] i = 0 := rfl
 
